@@ -395,6 +395,7 @@ type SymTab struct {
 	dts     map[string]string
 	dtOrder []string
 	axioms  map[string]string
+	typing  map[string]string // typing axioms of fresh heap objects (second solving phase only)
 }
 
 func NewSymTab() *SymTab { return &SymTab{decls: map[string]Decl{}} }
